@@ -48,6 +48,16 @@ CLAIMED["C08"] = (
     "Not modelled: user code mutating transform parameters in place.",
     "Lean 4 invariant proof over hand-written state machine + fresh-twin differential oracle", "DESIGN.md §6 C08")
 
+CLAIMED["C03"] = (
+    "Lean 4 theorems for any scalar type with a decidable < and no order axioms (so IEEE doubles with NaN are inside the quantifier): "
+    "outside <-> some coordinate strictly beyond its interval; outside -> fill on every output; not outside -> exactly the unmasked "
+    "evaluation; masking off / no box -> box irrelevant; incomparable (NaN) coordinates are not outside; closed edges are inside (Preorder) "
+    "and not-outside <-> inside the closed box (LinearOrder); batches are pointwise maps; set/get round trip in (x,y,..) order; wrong "
+    "dimensionality rejected. Tied to gwcs by a bit-exact correspondence (IEEE bit patterns, Lean Float instance) over boxes x fills x "
+    "flags x points at the edges and one ulp either side x array shapes, plus an independent oracle and read-back of the box after evaluation.",
+    "Trusted: Lean kernel; standard axioms; correspondence harness; astropy ModelBoundingBox.evaluate is modelled (its comparison mirrored).",
+    "Lean 4 proof over order-axiom-free model + bit-exact differential correspondence", "DESIGN.md §6 C03")
+
 NOT_YET = "check not built yet in this round; will be claimed once its Lean model, theorems and correspondence run green"
 
 
